@@ -11,7 +11,18 @@ class Facts:
         self.raw = d
         self.crate = d["crate"]
         self.types = d["types"]
-        self.bodies = {b["path"]: b for b in d["bodies"]}
+        self.bodies = {}
+        self.by_uid = {}
+        for b in d["bodies"]:
+            k = b["path"]
+            n = 1
+            while k in self.bodies:
+                n += 1
+                k = "%s#%d" % (b["path"], n)
+            b["path"] = k
+            self.bodies[k] = b
+            if "uid" in b:
+                self.by_uid[b["uid"]] = b
         self.adts = {a["path"]: a for a in d["adts"]}
         self.impls = d["impls"]
         self.traits = {t["path"]: t for t in d["traits"]}
